@@ -67,6 +67,7 @@ type plSched struct {
 	Times int64
 	Dur   time.Duration
 	Kids  []plSched
+	Typed bool // a composite written as {type: composite, nested: [...]} instead of a plain list
 }
 
 func (s plSched) build() core.Schedule {
@@ -111,11 +112,14 @@ func (s plSched) confValue(yamlShape bool) interface{} {
 	case "unlimited":
 		m["duration"] = s.Dur.String()
 	case "composite":
-		var l []interface{}
+		l := []interface{}{}
 		for _, k := range s.Kids {
 			l = append(l, k.confValue(yamlShape))
 		}
-		return l
+		if !s.Typed {
+			return l
+		}
+		m["nested"] = l
 	}
 	if yamlShape {
 		// what yaml.v2 produces (the acceptance tests' path); viper (the CLI path) gives map[string]interface{}
@@ -160,15 +164,30 @@ type plItem struct {
 	IFrom int    `json:"ifrom"`
 	ITo   int    `json:"ito"`
 	Dur   []int  `json:"dur"`
+	// a composite NESTED in the profile is logged as it is configured (ctor "composite" + its items): that a
+	// group is the concatenation of its items, token-less ones included, is StartupMath's statement, not the driver's
+	Kids interface{} `json:"kids,omitempty"` // []plItem of a composite, absent otherwise
 }
 
+// the profile as a list of items: the items of the top-level list, or the single item
 func (s plSched) desc() []plItem {
 	if s.Ctor == "composite" {
-		out := []plItem{}
-		for _, k := range s.Kids {
-			out = append(out, k.desc()...)
-		}
-		return out
+		return s.kidItems()
+	}
+	return []plItem{s.item()}
+}
+
+func (s plSched) kidItems() []plItem {
+	out := []plItem{}
+	for _, k := range s.Kids {
+		out = append(out, k.item())
+	}
+	return out
+}
+
+func (s plSched) item() plItem {
+	if s.Ctor == "composite" {
+		return plItem{Ctor: "composite", Dur: vt.Limbs(0), Kids: s.kidItems()}
 	}
 	it := plItem{Ctor: s.Ctor, Step: int(s.Step), Times: int(s.Times), Dur: vt.Limbs(int64(s.Dur))}
 	switch s.Ctor {
@@ -179,7 +198,7 @@ func (s plSched) desc() []plItem {
 	case "instance_step":
 		it.IFrom, it.ITo = int(s.From), int(s.To)
 	}
-	return []plItem{it}
+	return it
 }
 
 // rough size of a schedule, used by the GENERATOR only (to keep runs small); never logged
@@ -247,6 +266,9 @@ func (s plSched) String() string {
 	for _, k := range s.Kids {
 		ks = append(ks, k.String())
 	}
+	if s.Typed {
+		return "composite[" + strings.Join(ks, ",") + "]"
+	}
 	return "[" + strings.Join(ks, ",") + "]"
 }
 
@@ -313,7 +335,23 @@ type plConf struct {
 	YamlShape bool          // nested config maps are map[interface{}]interface{} (yaml.v2) instead of viper's
 	ViaConf   bool          // schedules, rps-per-instance and discard_overflow come out of pandora's config decoding
 	Case      int           // M2: index of the TLC-generated case, -1 otherwise
+	Twin      int           // > 0: the engine has a SECOND pool that starts this many instances (ids are numbered per pool)
 }
+
+// the gun of the second pool: records the InstanceID it is bound with, counts its shots
+type plTwinGun struct {
+	mu    *sync.Mutex
+	ids   *[]int
+	shots *int64
+}
+
+func (g *plTwinGun) Bind(_ core.Aggregator, deps core.GunDeps) error {
+	g.mu.Lock()
+	*g.ids = append(*g.ids, deps.InstanceID)
+	g.mu.Unlock()
+	return nil
+}
+func (g *plTwinGun) Shoot(core.Ammo) { atomic.AddInt64(g.shots, 1) }
 
 // ---------------------------------------------------------------- the per-run log
 
@@ -647,7 +685,27 @@ func plRunOne(c plConf, seed int64) plResult {
 		StartupSchedule: &plSchedule{r: r, inner: startupInner, startup: true, expl: c.Explicit},
 		DiscardOverflow: discard,
 	}
-	eng := engine.New(zap.NewNop(), m, engine.Config{Pools: []engine.InstancePoolConfig{pool}})
+	pools := []engine.InstancePoolConfig{pool}
+	var twinMu sync.Mutex
+	twinIDs := []int{}
+	var twinShots int64
+	if c.Twin > 0 {
+		// a second pool in the same engine, before or after the recorded one: c.Twin instances at once, one shot
+		// each; its mocks record only the ids its guns are bound with and the number of shots
+		twin := engine.InstancePoolConfig{
+			ID: "q", Provider: &plHotProvider{gate: make(chan struct{}), ammo: &plAmmo{id: 1}}, Aggregator: plHotAggregator{},
+			NewGun:          func() (core.Gun, error) { return &plTwinGun{mu: &twinMu, ids: &twinIDs, shots: &twinShots}, nil },
+			RPSPerInstance:  true,
+			NewRPSSchedule:  func() (core.Schedule, error) { return schedule.NewOnce(1), nil },
+			StartupSchedule: schedule.NewOnce(int64(c.Twin)),
+		}
+		if seed%2 == 0 {
+			pools = []engine.InstancePoolConfig{twin, pool}
+		} else {
+			pools = append(pools, twin)
+		}
+	}
+	eng := engine.New(zap.NewNop(), m, engine.Config{Pools: pools})
 	done := make(chan error, 1)
 	go func() {
 		err := eng.Run(context.Background())
@@ -700,6 +758,10 @@ func plRunOne(c plConf, seed int64) plResult {
 		"request": vt.Small(int64(m.Request.Get())), "response": vt.Small(int64(m.Response.Get())),
 		"inst_start": vt.Small(int64(m.InstanceStart.Get())), "inst_finish": vt.Small(int64(m.InstanceFinish.Get())),
 		"created": created, "shots": shots, "acquired": acquired}
+	// the other pool of the engine (none: no ids, no shots): the engine's counters are engine-wide
+	twinMu.Lock()
+	end["twin_ids"], end["twin_shots"] = append([]int{}, twinIDs...), int(atomic.LoadInt64(&twinShots))
+	twinMu.Unlock()
 	// what the real phout wrote: one line per Report, the discarded ones tagged and coded as such
 	end["phout"] = aggr.real != nil
 	phLines, phDisc := 0, 0
@@ -774,6 +836,17 @@ func plRandRPS(rng *rand.Rand, long bool) plSched {
 	for i := 0; i < n; i++ {
 		ks = append(ks, simple())
 	}
+	if rng.Intn(3) == 0 {
+		// a group nested in the profile, with a hold trailing / leading in the group
+		hold := plSched{Ctor: "const", From: 0, Dur: dur() / 2}
+		g := plSched{Ctor: "composite", Typed: rng.Intn(2) == 0}
+		if rng.Intn(2) == 0 {
+			g.Kids = []plSched{ks[0], hold}
+		} else {
+			g.Kids = []plSched{hold, ks[0], hold}
+		}
+		ks[0] = g
+	}
 	return plSched{Ctor: "composite", Kids: ks}
 }
 
@@ -808,7 +881,9 @@ func plRandStartup1(rng *rand.Rand, n int, slow bool) plSched {
 		return plSched{Ctor: "const", From: []float64{125.5, 250.7, 412.5}[rng.Intn(3)], Dur: plMs(6 + rng.Intn(15))}
 	}
 	pause := plSched{Ctor: "const", From: 0, Dur: step}
-	switch rng.Intn(8) {
+	switch rng.Intn(10) {
+	case 8, 9:
+		return plNested(rng, n, step)
 	case 0:
 		if rng.Intn(10) == 0 {
 			return plSched{Ctor: "once", Times: 0} // a startup profile without any token
@@ -853,6 +928,88 @@ func plRandStartup1(rng *rand.Rand, n int, slow bool) plSched {
 	return plSched{Ctor: "composite", Kids: ks}
 }
 
+// composites NESTED in a profile (a list in the list, or `type: composite`), with token-less items - a hold
+// (const 0 for d) or a const whose ops * d stays below 1 - trailing, leading or inside a group, at depth 1 or 2,
+// followed and preceded by further parts; n tokens in all (n >= 1)
+func plNested(rng *rand.Rand, n int, step time.Duration) plSched {
+	hold := func() plSched {
+		if rng.Intn(4) == 0 {
+			return plSched{Ctor: "const", From: 0.4, Dur: step} // 0.4 ops for <= 60 ms: no token
+		}
+		return plSched{Ctor: "const", From: 0, Dur: step}
+	}
+	once := func(k int) plSched { return plSched{Ctor: "once", Times: int64(k)} }
+	grp := func(ks ...plSched) plSched { return plSched{Ctor: "composite", Kids: ks, Typed: rng.Intn(3) == 0} }
+	a := 1 + rng.Intn(n)
+	b := n - a
+	if b == 0 && a > 1 {
+		a, b = a-1, 1
+	}
+	var ks []plSched
+	switch rng.Intn(7) {
+	case 0: // trailing hold in a group, parts after it
+		ks = []plSched{grp(once(a), hold()), once(b)}
+	case 1: // leading hold in a group
+		ks = []plSched{once(a), grp(hold(), once(b))}
+	case 2: // a group that is nothing but a hold, between parts
+		ks = []plSched{once(a), grp(hold()), once(b)}
+	case 3: // hold inside a group, and a second group ending with a hold
+		ks = []plSched{grp(once(a), hold(), once(b)), grp(once(1), hold()), once(1)}
+	case 4: // depth 2: the hold ends the inner group, which ends the outer one
+		ks = []plSched{grp(once(a), grp(once(b), hold())), once(1)}
+	case 5: // a group ending with two token-less items
+		ks = []plSched{grp(once(a), hold(), hold()), once(b), hold()}
+	default: // an instance_step in a group with a trailing hold
+		ks = []plSched{grp(plSched{Ctor: "instance_step", From: float64(rng.Intn(2)), To: float64(a), Step: 1, Dur: step}, hold()), once(b)}
+	}
+	return plSched{Ctor: "composite", Kids: ks, Typed: rng.Intn(4) == 0}
+}
+
+// C12 groupings enumerated by TLC (spec/StartupGroups.tla, one line {desc, tokens} per profile): rendered as the
+// real nested schedule / nested config; run like the enumerated constructors (every instance a one-token profile,
+// unbounded ammo: the starter drains the startup schedule, all token instants are compared)
+func plGroupConfs(path string, seed int64) []plConf {
+	var item func(m map[string]interface{}, rng *rand.Rand) plSched
+	list := func(v interface{}, rng *rand.Rand) []plSched {
+		ks := []plSched{}
+		for _, x := range vt.List(v) {
+			ks = append(ks, item(x.(map[string]interface{}), rng))
+		}
+		return ks
+	}
+	item = func(m map[string]interface{}, rng *rand.Rand) plSched {
+		ns := int64(0)
+		mul := int64(1)
+		for _, l := range vt.List(m["dur"]) {
+			ns += int64(vt.Int(l)) * mul
+			mul *= 10000
+		}
+		switch m["ctor"].(string) {
+		case "once":
+			return plSched{Ctor: "once", Times: int64(vt.Int(m["times"]))}
+		case "const":
+			return plSched{Ctor: "const", From: float64(vt.Int(m["from_m"])) / 1000, Dur: time.Duration(ns)}
+		case "composite":
+			return plSched{Ctor: "composite", Kids: list(m["kids"], rng), Typed: rng.Intn(3) == 0}
+		}
+		panic(fmt.Sprintf("groups: item %v", m))
+	}
+	var out []plConf
+	for i, m := range vt.ReadNDJSON(path) {
+		rng := rand.New(rand.NewSource(seed*104729 + int64(i)))
+		st := plSched{Ctor: "composite", Kids: list(m["desc"], rng), Typed: rng.Intn(4) == 0}
+		c := plConf{Case: -1, Startup: st, RPS: plSched{Ctor: "once", Times: 1}, Per: true, A: -1,
+			Explicit: rng.Intn(8) != 0, ShotMax: time.Duration(i%2) * 300 * time.Microsecond}
+		c.ViaConf = rng.Intn(2) == 0
+		c.YamlShape = rng.Intn(2) == 0
+		if rng.Intn(3) == 0 {
+			c.Twin = 1 + rng.Intn(3)
+		}
+		out = append(out, c)
+	}
+	return out
+}
+
 // C12: the complete small parameter space of the startup constructors, one run each.  Every instance owns a
 // one-token profile and the ammo is unbounded, so nothing cuts the start short: the starter drains the startup
 // schedule and the number and the instants of ALL its tokens are compared with StartupMath's.
@@ -864,6 +1021,9 @@ func plEnumStartupConfs(seed int64) []plConf {
 			Explicit: i%4 != 3, ShotMax: time.Duration(i%2) * 300 * time.Microsecond}
 		c.ViaConf = (int64(i)+seed)%3 == 0 && !st.hasOnceZero()
 		c.YamlShape = (int64(i)+seed)%2 == 0
+		if i%4 == 1 {
+			c.Twin = 1 + i%3
+		}
 		out = append(out, c)
 	}
 	pause := plSched{Ctor: "const", From: 0, Dur: plMs(3)}
@@ -1006,6 +1166,9 @@ func plRandConf(rng *rand.Rand, focus string) plConf {
 			c.A = 0
 		}
 	}
+	if focus == "c12" && rng.Intn(4) == 0 {
+		c.Twin = 1 + rng.Intn(4)
+	}
 	return c
 }
 
@@ -1035,10 +1198,38 @@ func plCaseConf(rng *rand.Rand, m map[string]interface{}, idx int) plConf {
 		cnt++
 	}
 	flush()
+	grouping := rand.New(rand.NewSource(rng.Int63() + 1)) // own stream: the other choices stay as they were
 	if len(ks) == 1 {
 		c.Startup = ks[0]
 	} else {
-		c.Startup = plSched{Ctor: "composite", Kids: ks}
+		// the same profile written flat, or with every pause grouped with the part before it / after it
+		var gs []plSched
+		switch mode := grouping.Intn(3); {
+		case mode == 1:
+			for i := 0; i < len(ks); i++ {
+				if i+1 < len(ks) && ks[i].Ctor == "once" && ks[i+1].Ctor == "const" {
+					gs = append(gs, plSched{Ctor: "composite", Kids: []plSched{ks[i], ks[i+1]}, Typed: grouping.Intn(2) == 0})
+					i++
+				} else {
+					gs = append(gs, ks[i])
+				}
+			}
+		case mode == 2:
+			for i := 0; i < len(ks); i++ {
+				if i+1 < len(ks) && ks[i].Ctor == "const" && ks[i+1].Ctor == "once" {
+					gs = append(gs, plSched{Ctor: "composite", Kids: []plSched{ks[i], ks[i+1]}, Typed: grouping.Intn(2) == 0})
+					i++
+				} else {
+					gs = append(gs, ks[i])
+				}
+			}
+		default:
+			gs = ks
+		}
+		c.Startup = plSched{Ctor: "composite", Kids: gs}
+		c.Explicit = grouping.Intn(2) == 0
+		c.ViaConf = grouping.Intn(3) == 0
+		c.YamlShape = grouping.Intn(2) == 0
 	}
 	if c.Startup.tokens() != vt.Int(m["n"]) {
 		panic(fmt.Sprintf("case %d: rendered startup %s has %d tokens", idx, c.Startup, c.Startup.tokens()))
@@ -1066,6 +1257,9 @@ func plCaseConf(rng *rand.Rand, m map[string]interface{}, idx int) plConf {
 	if rng.Intn(3) == 0 {
 		c.ProvDelay = time.Duration(rng.Intn(500)) * time.Microsecond
 	}
+	if c.Startup.hasOnceZero() || c.RPS.hasOnceZero() {
+		c.ViaConf = false // once(0) exists as a constructor call, not as a config (`times` min=1)
+	}
 	return c
 }
 
@@ -1086,6 +1280,9 @@ func plCaseConfUnknown(rng *rand.Rand, m map[string]interface{}, idx int) plConf
 	}
 	c.Past = 0
 	c.ShotMin = 300 * time.Microsecond
+	if c.RPS.hasOnceZero() {
+		c.ViaConf = false
+	}
 	return c
 }
 
@@ -1206,6 +1403,7 @@ func poolMain(args []string) {
 	par := fs.Int("par", 6, "runs in parallel")
 	hot := fs.Int("hot", 0, "high-contention runs (8 instances, one shared profile of -hottokens tokens due at once), after the others")
 	hotTokens := fs.Int("hottokens", 400000, "tokens of a high-contention run")
+	groups := fs.String("groups", "", "NDJSON file of TLC-enumerated nested startup profiles (StartupGroups.tla) instead of random ones")
 	fs.Parse(args)
 	seed := vt.Seed()
 	coreimport.Import(afero.NewMemMapFs())
@@ -1218,6 +1416,8 @@ func poolMain(args []string) {
 				confs = append(confs, plCaseConf(rng, m, i))
 			}
 		}
+	} else if *groups != "" {
+		confs = plGroupConfs(*groups, seed)
 	} else if *focus == "c12enum" {
 		confs = plEnumStartupConfs(seed)
 	} else if *focus == "c03sched" {
@@ -1251,8 +1451,8 @@ func poolMain(args []string) {
 			// n_impl, t, tmin: what the REAL schedules report before their start (Left()); sdesc, rdesc: the configuration
 			"n_impl": c.Startup.tokens(), "t": c.RPS.tokens(), "tmin": c.RPS.minTokens(), "a": c.A, "per": c.Per, "discard": c.Discard,
 			"sdesc": c.Startup.desc(), "rdesc": c.RPS.desc(), "explicit": c.Explicit, "case": c.Case, "tree": c.schedTree(),
-			"desc": fmt.Sprintf("startup=%s rps=%s per=%v discard=%v a=%d past=%s shot<=%s provdelay=%s explicit=%v viaconf=%v yamlshape=%v",
-				c.Startup, c.RPS, c.Per, c.Discard, c.A, c.Past, c.ShotMax, c.ProvDelay, c.Explicit, c.ViaConf, c.ViaConf && c.YamlShape)})
+			"desc": fmt.Sprintf("startup=%s rps=%s per=%v discard=%v a=%d past=%s shot<=%s provdelay=%s explicit=%v viaconf=%v yamlshape=%v otherpool=%d",
+				c.Startup, c.RPS, c.Per, c.Discard, c.A, c.Past, c.ShotMax, c.ProvDelay, c.Explicit, c.ViaConf, c.ViaConf && c.YamlShape, c.Twin)})
 		for _, e := range res.evs {
 			e.Run = i
 			w.Emit(e)
